@@ -556,6 +556,16 @@ impl IoLoop {
                 }
                 if event.readiness().is_writable() {
                     let result = self.inner.write_to_stream(stream);
+                    if let (ConnectionState::Steady(_), Err(_)) = (&*state, &result) {
+                        // The peer may have said why before hanging up: its Close can have
+                        // arrived after this wake-up's read pass (or after the wake-up was
+                        // reported). Look once more before giving up.
+                        let _ = self.inner.read_from_stream(
+                            stream,
+                            &mut self.frame_buffer,
+                            |inner, frame| state.process(inner, frame),
+                        );
+                    }
                     if self.socket_failed_behind_server_close(state, &result) {
                         return Ok(());
                     }
